@@ -47,6 +47,8 @@ def check_models(ctx, cfgs, what, workers=4):
     """E1.  thorough: ctx.check_model (TLC -coverage: fails on a vacuous run).  quick: the same model checking without the
     coverage instrumentation (it costs ~5x the whole run on this functional-style spec); a violated invariant is reported
     exactly as check_model does."""
+    if os.environ.get('VERIF_TS_SKIP_E1'):     # mutation campaigns on the C++ code: the model runs do not depend on the code
+        return
     for cfg, label in cfgs:
         if ctx.tier == 'thorough':
             ctx.check_model(SPEC, 'MCTaskSet.tla', cfg, what, label=label, workers=workers, vacuity_exempt=VAC,
@@ -63,6 +65,8 @@ def check_models(ctx, cfgs, what, workers=4):
 
 def expect_model_violation(ctx, cfg, invariant, what, label):
     """a configuration of the UNREPAIRED code shape must violate `invariant` (the spec-level counterexample)"""
+    if os.environ.get('VERIF_TS_SKIP_E1'):
+        return None
     res = ctx.tlc(SPEC, 'MCTaskSet.tla', cfg, workers=4, label=label, extra=['-noGenerateSpecTE'], count=False)
     if res.violation != 'Invariant ' + invariant:
         raise vlib.ToolError('%s: expected the unrepaired model %s to violate %s, got %s' % (what, cfg, invariant, res.violation))
@@ -91,6 +95,19 @@ def drop_spurious_deadlock(trace):
     return True
 
 
+def truncate_last_execution(trace, keep):
+    """a stalled execution (step bound) is reported as such; only its first `keep` events are validated"""
+    lines = open(trace).read().split('\n')
+    while lines and not lines[-1]:
+        lines.pop()
+    i = len(lines) - 1
+    while i > 0 and '"e":"Reset"' not in lines[i]:
+        i -= 1
+    if len(lines) - i > keep:
+        with open(trace, 'w') as f:
+            f.write('\n'.join(lines[:i + keep]) + '\n')
+
+
 # every action that not every configuration exercises
 VAC = ('A_GateSync', 'A_GateAwait', 'A_TsExcCas', 'A_TsExcStoreSet', 'A_TsExcStoreCancel', 'A_TsTarStoreUnset',
        'A_TsTryLoadOutTok', 'A_TsTryLoadOut', 'A_TsTryLoadFinal', 'A_TsCancelStore', 'A_TsKidsLock', 'A_TsCtorLoadPCancel',
@@ -101,7 +118,7 @@ VAC = ('A_GateSync', 'A_GateAwait', 'A_TsExcCas', 'A_TsExcStoreSet', 'A_TsExcSto
        'A_TsPkgInc', 'Fire', 'Commit', 'MCInit')
 
 
-def run_scenarios(ctx, exe, scens, what, n, seed, label, unfixed=False, pct=-1, maxsteps=30000, report=True,
+def run_scenarios(ctx, exe, scens, what, n, seed, label, unfixed=False, pct=-1, maxsteps=15000, report=True,
                   cfg='TaskSetTrace.cfg'):
     """n random controlled executions of every scenario; every trace is validated by TLC.  Executions that do not
     terminate (deadlock / step bound) and rejected traces are re-run once and reported only if they repeat.
@@ -142,6 +159,8 @@ def run_scenarios(ctx, exe, scens, what, n, seed, label, unfixed=False, pct=-1, 
                 kind = 'deadlock' if inc.group(3) == '1' else 'stalled'
                 problems.append((kind, 'scenario %s (seed %s): execution never completes (%s after %s steps)' %
                                  (scens[si], inc.group(2), kind, inc.group(4))))
+                if kind == 'stalled':
+                    truncate_last_execution(tr, 2500)
                 if final and report:
                     nl = sum(1 for _ in open(tr))
                     path = ctx.save_replay('%s-%s.txt' % (ctx.prop, kind),
